@@ -648,6 +648,7 @@ func (c *c18M) sync(failAt int, mid ...c18Op) {
 		op.Tokens = append(op.Tokens, after)
 		c.cs.Hist[idx] = op
 		if res.LastError != "" {
+			c.h.stray = true
 			if c.rec.fired && c.rec.failAt > 0 {
 				// the injected failure: disarm, the following runs must make up for it
 				c.rec.failAt = 0
